@@ -2,5 +2,5 @@
 # usage: muttest.sh <PID> <file> <sed-expr>   -- apply a one-off mutation to /repo, run the check, revert
 pid=$1; f=$2; expr=$3
 cd /repo && sed -i "$expr" $f && git diff --stat | tail -1
-cd /verif && ./check $pid | cut -c1-300; echo "rc=${PIPESTATUS[0]}"
+cd /verif && VT_OUT=/verif/gen/_scratch_out ./check $pid | cut -c1-300; echo "rc=${PIPESTATUS[0]}"
 git -C /repo checkout -- .
